@@ -163,6 +163,27 @@ def generate(seed, tier, idx=0):
             ops.append(["remove", ".".join(parts[:cut]), ".".join(parts[cut:])])
             params = [x for x in params if not (x[0] == path or x[0].startswith(path + "."))]
             maps = [m for m in maps if not (m == path or m.startswith(path + "."))]
+        elif r < 0.905 and len(maps) > 1 and (params or len(maps) > 2):
+            # a parameter or a whole sub-map (with its children) is taken out of its
+            # map and added to another one: every extended key below it changes
+            cand = [p for p, k, s in params] + maps[1:]
+            path = rng.choice(cand)
+            par, _, key = path.rpartition(".")
+            targets = [m for m in maps if m != par and m != path
+                       and not m.startswith(path + ".")]
+            taken = set(p for p, _, _ in params) | set(maps)
+            targets = [m for m in targets if ((m + "." if m else "") + key) not in taken]
+            if targets:
+                t = rng.choice(targets)
+                ops.append(["move", path, t])
+                new = (t + "." if t else "") + key
+
+                def mv(x):
+                    return new + x[len(path):] if (x == path or x.startswith(path + ".")) else x
+                params = [(mv(p), k, s) for p, k, s in params]
+                maps = [mv(m) for m in maps]
+            else:
+                ops.append(["check"])
         elif r < 0.93 and params and len(maps) > 1:
             # an attached parameter offered to another map that already holds a
             # different parameter with that key: refused, nothing may change
@@ -472,6 +493,36 @@ def run(case):
                 return ("remove", "op #%d: remove(%r) returned %r" % (i, rel, got)), info
             owner = b.find(rel.rpartition(".")[0]) if "." in rel else b
             owner.children = [c for c in owner.children if c is not target]
+        elif name == "move":
+            _, path, tpath = op
+            node = root.find(path)
+            target = root.find(tpath)
+            parent = root.find(path.rpartition(".")[0])
+            if node is None or target is None or parent is None or target.kind != "map" \
+                    or node is root or target is parent or target is node \
+                    or any(c.key == node.key for c in target.children):
+                continue
+            t = target                       # not into its own sub-tree
+            inside = False
+            stack = [node]
+            while stack:
+                x = stack.pop()
+                if x is target:
+                    inside = True
+                stack.extend(x.children)
+            if inside:
+                continue
+            try:
+                got = parent.obj.remove(node.key)
+                target.obj.add(node.obj)
+            except Exception as e:
+                return ("remove", "op #%d: moving %s to map %r (remove, then add) raised %s: %s"
+                        % (i, path, tpath or "root", type(e).__name__, e)), info
+            if got is not node.obj:
+                return ("remove", "op #%d: remove(%r) returned %r" % (i, node.key, got)), info
+            parent.children = [c for c in parent.children if c is not node]
+            target.add(node)
+            info["moves"] = info.get("moves", 0) + 1
         elif name == "readd":
             _, path, mpath = op
             node = root.find(path)
